@@ -371,3 +371,49 @@ func C09_Rollback() {
 	h.doCommit()
 	h.audit()
 }
+
+var _ = vReg("C07_LongRollback", C07_LongRollback)
+
+// C07_LongRollback: a history long enough for two-digit version numbers (the label of the persisted index
+// names the version it describes): version 1 writes, versions 2..V-1 are commits without writes, version V
+// (11..13) writes again; then a rollback to any earlier version, with the index enabled, or disabled and
+// re-enabled by the next open. The index must describe the rolled-back version.
+func C07_LongRollback() {
+	cfg := &vHistCfg{name: "C07_LongRollback", nKeys: 2, lenVars: 1, valVars: 1,
+		caches: []int{10000}, fast: []bool{true}, thresh: []int{0}}
+	h := vStartHist(cfg)
+	h.doSet(0)
+	h.doCommit()
+	V := int64(11 + vChoice("latest", 3))
+	for h.latest < V-1 {
+		h.doCommit()
+	}
+	switch vChoice("lastwrite", 3) {
+	case 0:
+		h.doSet(1)
+	case 1:
+		h.doRemove(0)
+	case 2:
+		h.doSet(0)
+	}
+	h.doCommit()
+	target := int64(1 + vChoice("target", int(V-1)))
+	if vChoice("index-off-during-rollback", 2) == 1 {
+		h.fastOn = false
+		h.doReopen()
+		h.doOverwrite(target, "c07long")
+		h.fastOn = true
+		h.doReopen()
+	} else {
+		h.doOverwrite(target, "c07long")
+	}
+	c07Coherent(h, "after-long-rollback")
+	c07Raw(h, "after-long-rollback")
+	h.doCommit()
+	c07Coherent(h, "after-long-rollback-commit")
+	c07Raw(h, "after-long-rollback-commit")
+	h.doReopen()
+	c07Coherent(h, "after-long-rollback-reopen")
+	c07Raw(h, "after-long-rollback-reopen")
+	vCover("two-digit-versions")
+}
